@@ -148,6 +148,10 @@ def check(ctx, chain, workload, wit_extra=None):
         ctx.inconclusive.append(f"dot not runnable: {e}")
         return
     ctx.mon("C15.graph_matches_chain")
+    if r.returncode != 0 and b"triangulation failed" in r.stderr:
+        # Graphviz' own spline router gave up on a large graph (libpath/shortest.c): that says nothing about the source text; lay it out without routing the edges (-Gsplines=none)
+        ctx.hit("graphviz-spline-router-failed:retried-without-splines")
+        r = subprocess.run(["dot", "-Gsplines=none", "-Tjson"], input=src.encode(), capture_output=True, timeout=60)
     if r.returncode != 0:
         ctx.violate("graph:rejected-by-graphviz", r.stderr.decode(errors="replace")[:400], {**wit, "dot": src})
         return
@@ -255,8 +259,10 @@ def run(ctx):
                 if st["k"] == "Decay":
                     for ln in st["lines"]:
                         if r.random() < 0.25:
-                            ln["fs"].append(r.choice(["anti-cs_0", "anti-ud_1", "anti-su_0", "cs_0", "ud_1", "anti-uu_1", "anti-bd_1", "eta'", "anti-K*0", "K'_10", "anti-Lambda_c-"]))
-                            ctx.hit("evtgen-specific-spelling-drawn")
+                            nm = r.choice(["anti-cs_0", "anti-ud_1", "anti-su_0", "cs_0", "ud_1", "anti-uu_1", "anti-bd_1", "eta'", "anti-K*0", "K'_10", "anti-Lambda_c-"])
+                            if nm not in T and nm not in parts:      # a plain leaf: no table of its own (the table set stays acyclic)
+                                ln["fs"].append(nm)
+                                ctx.hit("evtgen-specific-spelling-drawn")
         if i % 4 == 1:
             for st in stmts:
                 if st["k"] == "Decay" and st["lines"] and r.random() < 0.5:
